@@ -71,11 +71,17 @@ int main()
     int before = w->done;
     { std::unique_lock<std::mutex> lock(w->m); w->todo.push_back(op); }
     w->cv.notify_all();
-    auto deadline = std::chrono::steady_clock::now() + std::chrono::milliseconds(op == "acq" && held ? 60 : 3000);
+    // No verdict depends on how fast a thread is scheduled: first wait (long) until the worker has picked the command up
+    // (state 1 = inside protectee(), or the command is done); only an acquisition that must NOT complete (the lock is
+    // held) is then given a short grace period in which a broken helper would let it through.
+    auto pickup = std::chrono::steady_clock::now() + std::chrono::seconds(30);
+    while (w->done == before && !(op == "acq" && w->state == 1) && std::chrono::steady_clock::now() < pickup)
+      std::this_thread::sleep_for(std::chrono::microseconds(200));
+    auto deadline = std::chrono::steady_clock::now() + std::chrono::milliseconds(op == "acq" && held ? 60 : 30000);
     while (w->done == before && std::chrono::steady_clock::now() < deadline) std::this_thread::sleep_for(std::chrono::microseconds(200));
     if (op == "reset" || op == "exit")      // a waiter (if any) must now get the lock
     {
-      auto d2 = std::chrono::steady_clock::now() + std::chrono::milliseconds(3000);
+      auto d2 = std::chrono::steady_clock::now() + std::chrono::seconds(30);
       bool waiter = false;
       for (auto& kv : ws) if (kv.second->state == 1) waiter = true;
       while (waiter && std::chrono::steady_clock::now() < d2)
